@@ -177,6 +177,10 @@ SKS = [
     (dict(pre=[11], effs=[14, 15], effcond=10, goal=[11], w_init="any"), [[]]),                                # 10 nested fluent, conditional object assignment
     (dict(pre=[], effs=[5, 16, 0], effcond=4, n_bounds="both", goal=[1]), [["x0", "c2"], ["d2", "lb"]]),       # 11 conditional assign + decrease
     (dict(pre=[], effs=[7, 14], effcond=0, goal=[10], w_init="id"), [[]]),                                     # 12 two object assignments, possibly the same value
+    (dict(pre=[], effs=[3, 12], n_bounds="upper", goal=[0], values={"x0": -1}), [["d", "ub"]]),                # 13 a single upper bound around 0
+    (dict(pre=[], effs=[2, 12], n_bounds="lower", goal=[0], values={"x0": 1}), [["d", "lb"]]),                 # 14 a single lower bound around 0
+    (dict(pre=[], effs=[12, 0], goal=[0]), [[]]),                                                              # 15 add listed BEFORE delete on one Boolean fluent
+    (dict(pre=[], effs=[10, 15], goal=[2]), [[]]),                                                             # 16 the same on a parameterised fluent
 ]
 
 _WIDE = {2: 1, 6: 1, 7: 2, 8: 1, 12: 1}  # skeleton index -> number of first-step splits of the length-2 shard
@@ -188,7 +192,8 @@ def shards(tier, seed):
     if tier == "quick":
         # (skeleton, index of its sym list, which plan lengths: "all" | "short" (0..1) | "long" (2))
         plan = [(0, 0, "all"), (0, 1, "all"), (1, 0, "all"), (2, 0, "all"), (3, 0, "all"), (3, 1, "all"), (4, 0, "all"), (5, 0, "all"),
-                (6, 0, "all"), (7, 0, "short"), (7, 2, "long"), (7, 1, "all"), (8, 0, "all"), (9, 0, "all"), (11, 0, "all"), (12, 0, "all")]
+                (6, 0, "all"), (7, 0, "short"), (7, 2, "long"), (7, 1, "all"), (8, 0, "all"), (9, 0, "all"), (11, 0, "all"), (12, 0, "all"),
+                (13, 0, "all"), (14, 0, "all"), (15, 0, "all"), (16, 0, "all")]
         for j, (i, s, mode) in enumerate(plan):
             sk, syms = SKS[i]
             skd = dict(sk, sym=syms[s])
